@@ -23,6 +23,16 @@ static LOGGER: StderrLog = StderrLog;
 fn main() {
     let args: Vec<String> = std::env::args().collect();
     if std::env::var("VERIF_LOG").is_ok() { let _ = log::set_logger(&LOGGER); log::set_max_level(log::LevelFilter::Debug); }
+    if args.len() >= 4 && args[1] == "debug-nest" {
+        let depth: usize = args[2].parse().unwrap(); let kb: usize = args[3].parse().unwrap();
+        let mut obj = vec![b'['; depth]; obj.extend(vec![b']'; depth]);
+        let h = std::thread::Builder::new().stack_size(kb * 1024).spawn(move || {
+            let r = lopdf::verif_api::direct_object(&obj);
+            println!("depth {} stack {}KB -> {}", depth, kb, if r.is_some() { "parsed" } else { "rejected" });
+        }).unwrap();
+        h.join().unwrap();
+        return;
+    }
     if args.len() >= 3 && args[1] == "debug-load" {
         let hexs = std::fs::read_to_string(&args[2]).expect("read"); let b = codec::unhex(hexs.trim()).expect("hex");
         match lopdf::Document::load_mem(&b) { Ok(d) => { for (id, o) in &d.objects { println!("{:?} {}", id, codec::show_obj(o).chars().take(100).collect::<String>()); } println!("trailer {}", codec::show_obj(&lopdf::Object::Dictionary(d.trailer.clone()))); } Err(e) => println!("ERR {:?}", e) }
